@@ -3940,6 +3940,35 @@ impl<'a> Parser<'a> {
 
     fn parse_primary_type_inner(&mut self) -> Result<TypeAnnotation, JsError> {
         let start = self.current.span;
+        let mut ty = self.parse_type_operand()?;
+
+        // Array shorthand T[] and indexed access T[K] apply to every operand:
+        // string[], { a: number }["a"], (A | B)[], [A, B][0], T[K][]
+        // (a `[` on a new line starts the next member of an object type instead)
+        while self.check(&TokenKind::LBracket) && !self.lexer.had_newline_before() {
+            self.chain_step()?;
+            self.advance();
+            if self.match_token(&TokenKind::RBracket) {
+                ty = TypeAnnotation::Array(ArrayType {
+                    element_type: Box::new(ty),
+                    span: self.span_from(start),
+                });
+            } else {
+                let index_type = self.parse_type_annotation()?;
+                self.require_token(&TokenKind::RBracket)?;
+                ty = TypeAnnotation::Indexed(IndexedAccessType {
+                    object_type: Box::new(ty),
+                    index_type: Box::new(index_type),
+                    span: self.span_from(start),
+                });
+            }
+        }
+        Ok(ty)
+    }
+
+    /// A type without array / indexed-access suffixes
+    fn parse_type_operand(&mut self) -> Result<TypeAnnotation, JsError> {
+        let start = self.current.span;
 
         // unique symbol (`unique` followed by anything but a name is a type called `unique`)
         if self.check_keyword("unique") && self.peek_is_identifier() {
@@ -3958,31 +3987,10 @@ impl<'a> Parser<'a> {
             TokenKind::Keyof => {
                 self.advance();
                 let operand = self.parse_primary_type()?;
-                let mut ty = TypeAnnotation::Keyof(KeyofType {
+                let ty = TypeAnnotation::Keyof(KeyofType {
                     type_annotation: Box::new(operand),
                     span: self.span_from(start),
                 });
-                // Array shorthand: keyof T[]
-                while self.check(&TokenKind::LBracket) {
-                    self.chain_step()?;
-                    self.advance();
-                    if self.check(&TokenKind::RBracket) {
-                        self.advance();
-                        ty = TypeAnnotation::Array(ArrayType {
-                            element_type: Box::new(ty),
-                            span: self.span_from(start),
-                        });
-                    } else {
-                        // Indexed access: keyof T[K]
-                        let index_type = self.parse_type_annotation()?;
-                        self.require_token(&TokenKind::RBracket)?;
-                        ty = TypeAnnotation::Indexed(IndexedAccessType {
-                            object_type: Box::new(ty),
-                            index_type: Box::new(index_type),
-                            span: self.span_from(start),
-                        });
-                    }
-                }
                 Ok(ty)
             }
 
@@ -4017,92 +4025,42 @@ impl<'a> Parser<'a> {
             // Type keywords
             TokenKind::Any => {
                 self.advance();
-                let mut ty = TypeAnnotation::Keyword(TypeKeyword {
+                let ty = TypeAnnotation::Keyword(TypeKeyword {
                     keyword: TypeKeywordKind::Any,
                     span: self.span_from(start),
                 });
-                // Array shorthand: any[]
-                while self.check(&TokenKind::LBracket) {
-                    self.chain_step()?;
-                    self.advance();
-                    self.require_token(&TokenKind::RBracket)?;
-                    ty = TypeAnnotation::Array(ArrayType {
-                        element_type: Box::new(ty),
-                        span: self.span_from(start),
-                    });
-                }
                 Ok(ty)
             }
             TokenKind::Unknown => {
                 self.advance();
-                let mut ty = TypeAnnotation::Keyword(TypeKeyword {
+                let ty = TypeAnnotation::Keyword(TypeKeyword {
                     keyword: TypeKeywordKind::Unknown,
                     span: self.span_from(start),
                 });
-                // Array shorthand: unknown[]
-                while self.check(&TokenKind::LBracket) {
-                    self.chain_step()?;
-                    self.advance();
-                    self.require_token(&TokenKind::RBracket)?;
-                    ty = TypeAnnotation::Array(ArrayType {
-                        element_type: Box::new(ty),
-                        span: self.span_from(start),
-                    });
-                }
                 Ok(ty)
             }
             TokenKind::Never => {
                 self.advance();
-                let mut ty = TypeAnnotation::Keyword(TypeKeyword {
+                let ty = TypeAnnotation::Keyword(TypeKeyword {
                     keyword: TypeKeywordKind::Never,
                     span: self.span_from(start),
                 });
-                // Array shorthand: never[]
-                while self.check(&TokenKind::LBracket) {
-                    self.chain_step()?;
-                    self.advance();
-                    self.require_token(&TokenKind::RBracket)?;
-                    ty = TypeAnnotation::Array(ArrayType {
-                        element_type: Box::new(ty),
-                        span: self.span_from(start),
-                    });
-                }
                 Ok(ty)
             }
             TokenKind::Void => {
                 self.advance();
-                let mut ty = TypeAnnotation::Keyword(TypeKeyword {
+                let ty = TypeAnnotation::Keyword(TypeKeyword {
                     keyword: TypeKeywordKind::Void,
                     span: self.span_from(start),
                 });
-                // Array shorthand: void[]
-                while self.check(&TokenKind::LBracket) {
-                    self.chain_step()?;
-                    self.advance();
-                    self.require_token(&TokenKind::RBracket)?;
-                    ty = TypeAnnotation::Array(ArrayType {
-                        element_type: Box::new(ty),
-                        span: self.span_from(start),
-                    });
-                }
                 Ok(ty)
             }
             TokenKind::Null => {
                 self.advance();
-                let mut ty = TypeAnnotation::Keyword(TypeKeyword {
+                let ty = TypeAnnotation::Keyword(TypeKeyword {
                     keyword: TypeKeywordKind::Null,
                     span: self.span_from(start),
                 });
-                // Array shorthand: null[]
-                while self.check(&TokenKind::LBracket) {
-                    self.chain_step()?;
-                    self.advance();
-                    self.require_token(&TokenKind::RBracket)?;
-                    ty = TypeAnnotation::Array(ArrayType {
-                        element_type: Box::new(ty),
-                        span: self.span_from(start),
-                    });
-                }
                 Ok(ty)
             }
 
@@ -4121,49 +4079,17 @@ impl<'a> Parser<'a> {
 
                 if let Some(kw) = keyword {
                     self.advance();
-                    let mut ty = TypeAnnotation::Keyword(TypeKeyword {
+                    let ty = TypeAnnotation::Keyword(TypeKeyword {
                         keyword: kw,
                         span: self.span_from(start),
                     });
 
-                    // Array shorthand: string[]
-                    while self.check(&TokenKind::LBracket) {
-                        self.chain_step()?;
-                        self.advance();
-                        self.require_token(&TokenKind::RBracket)?;
-                        ty = TypeAnnotation::Array(ArrayType {
-                            element_type: Box::new(ty),
-                            span: self.span_from(start),
-                        });
-                    }
 
                     Ok(ty)
                 } else {
                     let ty = self.parse_type_reference()?;
-                    let mut ty = TypeAnnotation::Reference(ty);
+                    let ty = TypeAnnotation::Reference(ty);
 
-                    // Array shorthand or indexed access type
-                    while self.check(&TokenKind::LBracket) {
-                        self.chain_step()?;
-                        self.advance();
-                        if self.check(&TokenKind::RBracket) {
-                            // Array type: T[]
-                            self.advance();
-                            ty = TypeAnnotation::Array(ArrayType {
-                                element_type: Box::new(ty),
-                                span: self.span_from(start),
-                            });
-                        } else {
-                            // Indexed access type: T["key"] or T[K]
-                            let index_type = self.parse_type_annotation()?;
-                            self.require_token(&TokenKind::RBracket)?;
-                            ty = TypeAnnotation::Indexed(IndexedAccessType {
-                                object_type: Box::new(ty),
-                                index_type: Box::new(index_type),
-                                span: self.span_from(start),
-                            });
-                        }
-                    }
 
                     Ok(ty)
                 }
@@ -4185,21 +4111,11 @@ impl<'a> Parser<'a> {
 
                 let members = self.parse_type_members()?;
                 self.require_token(&TokenKind::RBrace)?;
-                let mut ty = TypeAnnotation::Object(ObjectType {
+                let ty = TypeAnnotation::Object(ObjectType {
                     members,
                     span: self.span_from(start),
                 });
 
-                // Array shorthand: { a: number }[]
-                while self.check(&TokenKind::LBracket) {
-                    self.chain_step()?;
-                    self.advance();
-                    self.require_token(&TokenKind::RBracket)?;
-                    ty = TypeAnnotation::Array(ArrayType {
-                        element_type: Box::new(ty),
-                        span: self.span_from(start),
-                    });
-                }
 
                 Ok(ty)
             }
@@ -4225,20 +4141,10 @@ impl<'a> Parser<'a> {
                     }
                 }
                 self.require_token(&TokenKind::RBracket)?;
-                let mut ty = TypeAnnotation::Tuple(TupleType {
+                let ty = TypeAnnotation::Tuple(TupleType {
                     element_types: types,
                     span: self.span_from(start),
                 });
-                // Array shorthand: [string, number][]
-                while self.check(&TokenKind::LBracket) {
-                    self.chain_step()?;
-                    self.advance();
-                    self.require_token(&TokenKind::RBracket)?;
-                    ty = TypeAnnotation::Array(ArrayType {
-                        element_type: Box::new(ty),
-                        span: self.span_from(start),
-                    });
-                }
                 Ok(ty)
             }
 
@@ -4279,18 +4185,8 @@ impl<'a> Parser<'a> {
                 self.advance();
                 let inner_ty = self.parse_type_annotation()?;
                 self.require_token(&TokenKind::RParen)?;
-                let mut ty = TypeAnnotation::Parenthesized(Box::new(inner_ty));
+                let ty = TypeAnnotation::Parenthesized(Box::new(inner_ty));
 
-                // Array shorthand: (number | undefined)[]
-                while self.check(&TokenKind::LBracket) {
-                    self.chain_step()?;
-                    self.advance();
-                    self.require_token(&TokenKind::RBracket)?;
-                    ty = TypeAnnotation::Array(ArrayType {
-                        element_type: Box::new(ty),
-                        span: self.span_from(start),
-                    });
-                }
 
                 Ok(ty)
             }
